@@ -427,6 +427,7 @@ func learnedUnitBindings(w *World, an map[*ssa.Function]bool) []unitBinding {
 		}
 		return false
 	}
+	eff := w.effects()
 	level1Bindings := func(fn *ssa.Function) (calls []*ssa.Call, lits []ssa.Value) {
 		for _, ci := range callsIn(fn) {
 			call, ok := ci.(*ssa.Call)
@@ -445,7 +446,14 @@ func learnedUnitBindings(w *World, an map[*ssa.Function]bool) []unitBinding {
 					}
 				}
 			}
-			if lit != nil && lvl1 {
+			// the binding proper: the callee writes the model (a pure helper computing the signed level binds nothing)
+			writes := false
+			for _, c := range w.Callees[call] {
+				if eff.WritesAny(c, "solver.Solver.model") {
+					writes = true
+				}
+			}
+			if lit != nil && lvl1 && writes {
 				calls, lits = append(calls, call), append(lits, lit)
 			}
 		}
